@@ -658,14 +658,20 @@ func (p *Prog) protectionOf(acc *ownAccess, fa *ssa.FieldAddr) {
 				continue
 			}
 			name := p.calleeName(c.Common())
-			if name != "(*sync.Mutex).Lock" || len(c.Call.Args) != 1 {
+			mo, mf := "", ""
+			if name == "(*sync.Mutex).Lock" && len(c.Call.Args) == 1 {
+				mfa, ok := c.Call.Args[0].(*ssa.FieldAddr)
+				if !ok {
+					continue
+				}
+				mo, mf = p.fieldAddrName(mfa)
+			} else if m, ok := p.lockWrappers()[name]; ok {
+				// a method that returns with a mutex of its receiver held on every path
+				i := strings.Index(m, ".")
+				mo, mf = m[:i], m[i+1:]
+			} else {
 				continue
 			}
-			mfa, ok := c.Call.Args[0].(*ssa.FieldAddr)
-			if !ok {
-				continue
-			}
-			mo, mf := p.fieldAddrName(mfa)
 			if !instrDominates(x, in) {
 				continue
 			}
@@ -778,4 +784,108 @@ func (o *ownResult) rootAccesses(root, owner, field string) bool {
 		}
 	}
 	return false
+}
+
+// lockWrappers: functions of the package that return, on every path, holding
+// one mutex field of their receiver: either a Lock of it dominates the return
+// (with no Unlock in between), or the return is taken because a TryLock of it
+// succeeded. The map answers "Owner.field" for each.
+func (p *Prog) lockWrappers() map[string]string {
+	if v, ok := p.memo["lockWrappers"]; ok {
+		return v.(map[string]string)
+	}
+	out := map[string]string{}
+	p.memo["lockWrappers"] = out
+	for _, f := range p.allFuncs() {
+		if f.Pkg != p.SPkg || f.Blocks == nil || f.Signature.Recv() == nil || f.Signature.Results().Len() != 0 {
+			continue
+		}
+		// candidate mutexes: every Lock / TryLock on a field of the receiver
+		cands := map[string]bool{}
+		type lk struct {
+			in      ssa.Instruction
+			m       string
+			tryLock bool
+		}
+		var locks, unlocks []lk
+		for _, b := range f.Blocks {
+			for _, in := range b.Instrs {
+				c, ok := in.(*ssa.Call)
+				if !ok || len(c.Call.Args) != 1 {
+					continue
+				}
+				n := p.calleeName(c.Common())
+				if n != "(*sync.Mutex).Lock" && n != "(*sync.Mutex).TryLock" && n != "(*sync.Mutex).Unlock" {
+					continue
+				}
+				fa, ok := c.Call.Args[0].(*ssa.FieldAddr)
+				if !ok || len(f.Params) == 0 || fa.X != f.Params[0] {
+					continue
+				}
+				o, fld := p.fieldAddrName(fa)
+				m := o + "." + fld
+				switch n {
+				case "(*sync.Mutex).Unlock":
+					unlocks = append(unlocks, lk{in, m, false})
+				default:
+					cands[m] = true
+					locks = append(locks, lk{in, m, n == "(*sync.Mutex).TryLock"})
+				}
+			}
+		}
+		for m := range cands {
+			all, nret := true, 0
+			for _, b := range f.Blocks {
+				if b == f.Recover {
+					continue
+				}
+				for _, in := range b.Instrs {
+					ret, ok := in.(*ssa.Return)
+					if !ok {
+						continue
+					}
+					nret++
+					held := false
+					for _, l := range locks {
+						if l.m != m {
+							continue
+						}
+						if l.tryLock {
+							for _, ft := range p.factsAt(ret) {
+								if ft.Val && ft.Cond == l.in.(ssa.Value) {
+									held = true
+								}
+							}
+							continue
+						}
+						if !instrDominates(l.in, ret) {
+							continue
+						}
+						rel := false
+						for _, u := range unlocks {
+							if u.m == m && instrDominates(l.in, u.in) && instrDominates(u.in, ret) {
+								rel = true
+							}
+						}
+						if !rel {
+							held = true
+						}
+					}
+					// an Unlock anywhere on the way disqualifies the TryLock form too
+					for _, u := range unlocks {
+						if u.m == m && instrDominates(u.in, ret) {
+							held = false
+						}
+					}
+					if !held {
+						all = false
+					}
+				}
+			}
+			if all && nret > 0 {
+				out[p.fname(f)] = m
+			}
+		}
+	}
+	return out
 }
